@@ -9,7 +9,8 @@ CONSTANTS
   SettleRuns = 4
   EnvAllowed = {"hubvanish", "hubcompact"}
   Chunks = 3
-  PutAllowed = {"dropBefore", "dropAfter"}
+  PutAllowed = {"dropBefore", "dropAfter", "cancel"}
+  MaxRestart = 0
   MinRuns = 0
   Emit = TRUE
 INVARIANTS EmitInv
